@@ -83,11 +83,32 @@ func RunC07(tier string) int {
 		return run.Finish()
 	}
 	defer st.Cleanup()
-	e1.CrashPart(run, st, tierN(tier, 8, 40), tierN(tier, 6, 0), tierN(tier, 2, 10))
+	if report.Part("sysfault") {
+		// (1c) storage faults at the system call level (hook-free): see e1/sysfault.go
+		e1.SysFaultPart(run, st, tierN(tier, 10, 60), tierN(tier, 6, 30), map[string]bool{"read": true, "write": true},
+			map[string]bool{"audit": true, "keys": true, "bytes": true, "followup": true}, false)
+		// the same with tracing restricted to the cache entries that exist before the build:
+		// reads of cached results and blobs fail (transiently: the entry is intact at rest)
+		e1.SysFaultPart(run, st, tierN(tier, 8, 50), tierN(tier, 8, 30), map[string]bool{"read": true},
+			map[string]bool{"audit": true, "keys": true, "bytes": true, "followup": true}, false)
+	}
+	if report.Part("crash") {
+		e1.CrashPart(run, st, tierN(tier, 8, 40), tierN(tier, 6, 0), tierN(tier, 2, 10))
+	}
 	// (1b) entries lost at rest (what a crash or a failed write leaves behind, or an eviction):
 	// every blob / tree / result entry in turn, singly and in pairs; the next build must exit 0
 	// with reference bytes
 	e1.LostEntryPart(run, st, tierN(tier, 12, 60), tierN(tier, 12, 0), map[string]bool{"bytes": true, "restore": true, "exit": true, "crash": true, "hang": true})
+
+	// (1d) a restore that fails half way while the other outputs are still being restored
+	if report.Part("overlap") {
+		e1.RestoreOverlapPart(run, st, tierN(tier, 10, 60))
+	}
+
+	// (1e) transient Get faults of the local backend inside whole builds (hook-level, replayable)
+	if report.Part("getfault") {
+		e1.GetFaultPart(run, st, tierN(tier, 12, 80), tierN(tier, 8, 40), false, map[string]bool{"bytes": true, "audit": true, "followup": true})
+	}
 
 	// (2) storage faults
 	err = StoreSweep(run, "TestFaults", tierN(tier, 160, 1500), false, func(o Outcome) {
